@@ -33,10 +33,43 @@ def _none_returns(body):
     return out
 
 
+def check_callback_polarity(ctx, rule):
+    """the rings consult the caller's `report_full_fn` / `report_empty_fn` when they find the queue full / empty: `true` = "try again", `false` = "give up now".
+    Every channel of the property passes the constant `false` (R16.2), so the give-up answer (None) must be reachable on the FALSE edge of the callback's answer
+    without another attempt, and not on its TRUE edge: with the polarity reversed a rejected send spins for ever instead of returning."""
+    fx = ctx.fx
+    n = 0
+    for adt in (R.AM, R.FSM):
+        for fn, pname in (("leak_slot_internal", "report_full"), ("consume_leaking_internal", "report_empty")):
+            k = f"{adt}::{fn}"
+            f = fx.fn_opt(k)
+            if f is None: continue
+            body = Body(f); dg = D.Dag(body)
+            cbs = [(b, c) for (b, c) in body.calls if c.get("f") in ("std::ops::Fn::call", "std::ops::FnMut::call_mut", "std::ops::FnOnce::call_once") and c["args"] and util.callee_param_name(body, c).startswith(pname)]
+            if len(cbs) != 1:
+                ctx.ob(rule, f"{k}|{pname}-callback-consulted-once", False, f"{body.f['file']}:{body.f['line']}", f"{len(cbs)} calls of the {pname} callback; expected one"); continue
+            cb, cc = cbs[0]
+            n += 1
+            attempts = frozenset(b for (b, c) in body.calls if b != cb and ((R.atomic_target(body, c) or (0, 0, ""))[2:] in (("fetch_add",),) or (c.get("resolved") or c.get("f")) == R.SPIN_LOCK))
+            def explore(want_truth):
+                def cut(facts):
+                    for (e, truth) in facts:
+                        if isinstance(e, tuple) and e[0] == "call" and len(e) > 3 and e[3] == cb and truth != want_truth: return True
+                    return False
+                return util.flag_paths(body, dg, body.term(cb)[1]["t"], stop_blocks=attempts, cut=cut)
+            on_false = explore(False); on_true = explore(True)
+            gives_up_on_false = any(r in on_false for r in body.returns)
+            retries_on_true = not any(r in on_true for r in body.returns)
+            ctx.ob(rule, f"{k}|gives-up-when-the-callback-says-false", gives_up_on_false and retries_on_true, body.loc(cb),
+                   f"`{pname}_fn()` false -> answers None without another attempt: {gives_up_on_false}; true -> another attempt before any answer: {retries_on_true}")
+    ctx.ob(rule, "callback-polarity|instances", n >= 4, "", f"{n} ring functions consulting a full / empty callback", nontrivial=False)
+
+
 def check(ctx):
     fx = ctx.fx
     eng = ts.Engine(fx)
     C01 = importlib.import_module("props.C01")
+    check_callback_polarity(ctx, "R16.4")
     # ------------------------------------------------------------------ R16.1 containers
     k = R.AM + "::leak_slot_internal"
     body = Body(fx.fn(k)); dg = D.Dag(body)
